@@ -1,5 +1,5 @@
 CONSTANTS
-  D4 = {32, 33, 34, 36, 65534}
+  D4 = {32, 33, 34, 36, 37, 65534}
   G4 = {0, 1, 2, 3}
   G2 = {0, 1, 2}
   DL2 = {0, 5, -2}
